@@ -80,6 +80,14 @@ def full_stretched_case():
             "tile": [2, 2, 1], "edges": [cum([1.0, 1.5, 1.0]), cum([2.0, 2.0]), cum([0.75, 1.5])], "full_eps": True, "full_mu": True}
 
 
+def lossy_full_case():
+    """conductive fully anisotropic medium (9-component tensors and conductivities) on a Bloch / periodic supercell: forward_lossy tiers"""
+    # kept tiny: the 3x3 solves leave the dyadic regime, exact rationals grow quickly
+    return {"shape": [2, 2, 1], "bt": {f"{s_}_{a}": "periodic" for s_ in ("min", "max") for a in "xyz"},
+            "ncomp": 1, "seed": 23, "steps": 1, "back": 0, "tile": [2, 1, 1], "full_eps": True, "full_mu": True,
+            "sigma": "EH", "full_sigma": True}
+
+
 def thin_cases():
     """one-cell-thick Bloch axes with a non-zero wave-vector component (the collapsed-axis idiom for 2-D runs)"""
     def bt(bloch_axes):
@@ -89,7 +97,7 @@ def thin_cases():
 
 
 def gen_cases(ctx):
-    return [seam_case(), full_case(), full_stretched_case()] + thin_cases() + [gen_case(ctx.rng, ctx.quick, i) for i in range(ctx.pick(5, 30))]
+    return [seam_case(), full_case(), full_stretched_case(), lossy_full_case()] + thin_cases() + [gen_case(ctx.rng, ctx.quick, i) for i in range(ctx.pick(5, 30))]
 
 
 def run_cases(ctx, cases):
@@ -104,7 +112,9 @@ def coq_expr(case, out):
         o = out[which]
         sc = Y.scene_term(cs, o)
         st = o["states"]
-        if o.get("ieps9") or o.get("imu9"):
+        if (o.get("ieps9") or o.get("imu9")) and cs.get("sigma"):
+            parts.append(Y.lossy_steps_expr(cs["shape"], sc, o, list(zip(st, st[1:])), scale=max(Y.maxabs(o), 1.0)))
+        elif o.get("ieps9") or o.get("imu9"):
             parts.append(Y.full_steps_expr(cs["shape"], sc, o, [("forward_fullX", a, b) for a, b in zip(st, st[1:])], Y.exact_ok(cs), scale=max(Y.maxabs(o), 1.0)))
         else:
             parts.append(Y.steps_expr(cs["shape"], sc, [("forwardX", a, b) for a, b in zip(st, st[1:])], Y.exact_ok(cs), scale=max(Y.maxabs(o), 1.0)))
